@@ -44,6 +44,7 @@ CHECKS = {
         rapid("codecx", "TestC19Unpad", 20000, 60000, 4),
         rapid("codecx", "TestC19Prefix", 20000, 60000, 4),
         rapid("codecx", "TestC19Prng", 20000, 60000, 4),
+        rapid("codecx", "TestC19PrngPar", 150, 150, 4),
         fuzz("codecx", "FuzzC19Unpad", 30),
         fuzz("codecx", "FuzzC19Pad", 30),
         fuzz("codecx", "FuzzC19Prefix", 30),
